@@ -92,7 +92,7 @@ Definition esc_tok (c : char) : tok :=
 
 Definition mem_toks (m : bmem) : list tok :=
   match m with
-  | MEsc c => [esc_tok c]
+  | MEsc c => if peg_escaped_alnum_plain && is_alnum c then [TRaw c] else [esc_tok c]
   | MOpen => [TLit 91]
   | MRaw c => if mem c [91; 92; 93] then [TUnm] else [TRaw c]   (* never produced by the PEG *)
   end.
